@@ -45,6 +45,12 @@ impl Rng {
     pub fn range(&mut self, lo: usize, hi_incl: usize) -> usize {
         lo + self.below(hi_incl - lo + 1)
     }
+    pub fn shuffle<T>(&mut self, v: &mut [T]) {
+        for i in (1..v.len()).rev() {
+            let j = self.below(i + 1);
+            v.swap(i, j);
+        }
+    }
     pub fn chance(&mut self, num: usize, den: usize) -> bool {
         self.below(den) < num
     }
